@@ -1,7 +1,7 @@
 (* Properties/C15.v — ONLY property theorems of C15 (each closed by [exact lemma]) and their
    Print Assumptions.  tf_spec is C15.Model (tf_leaf / tf_run); its shape logic is C06.Ref. *)
 From Precond Require Import Base.PyLib Base.QMat C06.Records C06.Ref C06.MergeProofs C09.Model
-     C15.Tensor C15.Model C15.Proofs.
+     C15.Tensor C15.Model C15.Proofs C15.Padding C15.PaddedRoot.
 Open Scope Q_scope.
 
 (* One step, every configuration / state / oracle answer: the new state does not see the learning
@@ -80,3 +80,67 @@ Theorem c15_scalar_root_mask : forall (p : positive) (kept : bool) (r w : Q),
   Qpower r (Zpos p) * w == (if kept then 1 else 0).
 Proof. exact scalar_root_mask. Qed.
 Print Assumptions c15_scalar_root_mask.
+
+(* ---- zero padding (C15.Padding): list matrices of Base.QMat, entrywise == ---- *)
+(* statistics of the padded axis are block diagonal with a zero block *)
+Theorem c15_tf_padding_zero_rows_stats : forall T k m,
+  meqv (gram_rows (padr T k m)) (bd (gram_rows T) k).
+Proof. exact gram_padded_axis. Qed.
+Print Assumptions c15_tf_padding_zero_rows_stats.
+
+(* statistics of the other axis do not change *)
+Theorem c15_tf_padding_zero_rows_other_axis : forall T k m n, Forall (fun _ => True) T ->
+  meqv (gram_rows (transpose_n n (padr T k m))) (gram_rows (transpose_n n T)).
+Proof. exact gram_other_axis. Qed.
+Print Assumptions c15_tf_padding_zero_rows_other_axis.
+
+(* with root (+) 0 on the padded axis, and any matrix on the other axis, the values delivered for
+   real entries are those of the unpadded block; the padding rows stay zero *)
+Theorem c15_tf_padding_zero_rows : forall L T k m,
+  T <> [] -> length L = length T -> Forall (fun l => length l = length T) L ->
+  Forall (fun r => length r = m) T ->
+  meqv (mmul (bd L k) (padr T k m)) (padr (mmul L T) k m).
+Proof. exact precondition_padded_axis. Qed.
+Print Assumptions c15_tf_padding_zero_rows.
+
+Theorem c15_tf_padding_zero_rows_right : forall T R k m,
+  meqv (mmul (padr T k m) R) (padr (mmul T R) k (length (transpose R))).
+Proof. exact precondition_other_axis. Qed.
+Print Assumptions c15_tf_padding_zero_rows_right.
+
+(* the spec-side root of the padded statistics: any multiplicative embedding (C |-> C (+) 0)
+   preserves the pseudo-inverse-root spec ... *)
+Theorem c15_tf_padded_root_spec : forall (M M' : Type) (mul : M -> M -> M) (one : M)
+    (mul' : M' -> M' -> M') (one' : M'),
+  (forall a, mul a one = a) -> (forall a, mul' a one' = a) ->
+  forall emb : M -> M', (forall a b, emb (mul a b) = mul' (emb a) (emb b)) ->
+  forall p C R P, (1 <= p)%nat ->
+  pinv_spec M mul one p C R P -> pinv_spec' M' mul' one' p (emb C) (emb R) (emb P).
+Proof. exact padded_root_spec. Qed.
+Print Assumptions c15_tf_padded_root_spec.
+
+(* ... concretely for d x d list matrices with Base.QMat.mmul and entrywise ==: C |-> C (+) 0_k is
+   multiplicative (bd_mul), so root (+) 0 satisfies the spec of the zero-padded statistics, for every
+   exponent q + 1 >= 1, block dimension d >= 1 and padding k *)
+Theorem c15_bd_mul : forall A B k d, (1 <= d)%nat ->
+  length A = d -> Forall (fun r => length r = d) A ->
+  length B = d -> Forall (fun r => length r = d) B ->
+  meqv (mmul (bd A k) (bd B k)) (bd (mmul A B) k).
+Proof. exact bd_mul. Qed.
+Print Assumptions c15_bd_mul.
+
+Theorem c15_tf_padded_root_spec_concrete : forall d k q C R P,
+  (1 <= d)%nat -> sq d C -> sq d R -> sq d P ->
+  pspec mat mmul meqv q C R P -> pspec mat mmul meqv q (bd C k) (bd R k) (bd P k).
+Proof. exact padded_root_spec_concrete. Qed.
+Print Assumptions c15_tf_padded_root_spec_concrete.
+
+(* hence, GIVEN UNIQUENESS OF THE ROOT (first hypothesis: pinv_root_unique — an assumption, not
+   proved), the root of the zero-padded statistics is root_unpadded (+) 0 *)
+Theorem c15_tf_padding_zero_rows_root : forall d k q C R P Rpad Ppad,
+  (forall C0 R1 R2 P1 P2, pspec mat mmul meqv q C0 R1 P1 -> pspec mat mmul meqv q C0 R2 P2 -> meqv R1 R2) ->
+  (1 <= d)%nat -> sq d C -> sq d R -> sq d P ->
+  pspec mat mmul meqv q C R P -> pspec mat mmul meqv q (bd C k) Rpad Ppad ->
+  meqv Rpad (bd R k).
+Proof. exact padded_root_unique_concrete. Qed.
+Print Assumptions c15_tf_padding_zero_rows_root.
